@@ -1,6 +1,6 @@
 (* C15 — exported polygons and lines correspond to faces.
-   Statements only (about Model/C15.v and the key lists regenerated from the source in
-   Gen/C15_keys.v); each closed by `exact` of a lemma from Proofs/C15_proofs.v. *)
+   Statements only (about Model/C15.v, which follows the code after the fix commits e27ba52e 9933f425
+   78ab318c 1fc12f82 fef78d05, and the key lists regenerated from the source in Gen/C15_keys.v); each closed by `exact` of a lemma from Proofs/C15_proofs.v. *)
 From Verif Require Import Base C15 C15_keys C15_proofs.
 
 (* antimeridian faces: the test on the closed, padded float shell row = "some edge of the face
@@ -47,45 +47,30 @@ Theorem C15_data_exclude : forall am nan pieces values,
 Proof. exact c15_poly_exclude_aligned. Qed.
 Print Assumptions C15_data_exclude.
 
-Theorem C15_data_split : forall n am pieces values,
-  c15_aligned values (c15_poly C15Split n am None pieces values).
+Theorem C15_data_split : forall n am nan pieces values,
+  c15_aligned values (c15_poly C15Split n am nan pieces values).
 Proof. exact c15_poly_split_aligned. Qed.
 Print Assumptions C15_data_split.
 
-Theorem C15_data_ignore : forall am pieces values,
-  c15_aligned values (c15_poly C15Ignore (length values) am None pieces values).
+(* ignore: with or without a projection *)
+Theorem C15_data_ignore : forall am nan pieces values,
+  c15_aligned values (c15_poly C15Ignore (length values) am nan pieces values).
 Proof. exact c15_poly_ignore_aligned. Qed.
 Print Assumptions C15_data_ignore.
 
-(* ignore with a projection: refuted for the code as written, proved for the repaired variant *)
-Theorem C15_data_ignore_projection_refuted : exists n am nan pieces values,
-  length values = n /\ ~ c15_aligned values (c15_poly C15Ignore n am nan pieces values).
-Proof. exact c15_poly_ignore_projection_refuted. Qed.
-Print Assumptions C15_data_ignore_projection_refuted.
-
-Theorem C15_data_ignore_fixed : forall am nan pieces values,
-  c15_aligned values (c15_poly_fixed C15Ignore (length values) am nan pieces values).
-Proof. exact c15_poly_fixed_ignore_aligned. Qed.
-Print Assumptions C15_data_ignore_fixed.
-
-(* GeoDataFrame: under every option, with or without projection, both NaN-table variants *)
-Theorem C15_data_gdf : forall fixed per am nan values,
+(* GeoDataFrame: under every option, with or without projection *)
+Theorem C15_data_gdf : forall per am nan values,
   (match nan with Some fl => length fl = length values | None => True end) ->
-  c15_aligned values (c15_gdf_gen fixed per (length values) am nan values).
+  c15_aligned values (c15_gdf per (length values) am nan values).
 Proof. exact c15_gdf_aligned. Qed.
 Print Assumptions C15_data_gdf.
 
-(* one-to-one: with a projection the frame as written lists NaN-free faces twice *)
-Theorem C15_gdf_projection_duplicates_refuted : exists per n am nan values,
-  ~ NoDup (o_faces (c15_gdf per n am nan values)).
-Proof. exact c15_gdf_projection_duplicates_refuted. Qed.
-Print Assumptions C15_gdf_projection_duplicates_refuted.
-
-Theorem C15_gdf_once_fixed : forall per n am nan values,
+(* one-to-one: no face is listed twice in the frame, with or without projection *)
+Theorem C15_gdf_once : forall per n am nan values,
   (match nan with Some fl => length fl = n | None => True end) ->
-  NoDup (o_faces (c15_gdf_fixed per n am nan values)).
-Proof. exact c15_gdf_fixed_NoDup. Qed.
-Print Assumptions C15_gdf_once_fixed.
+  NoDup (o_faces (c15_gdf per n am nan values)).
+Proof. exact c15_gdf_NoDup. Qed.
+Print Assumptions C15_gdf_once.
 
 (* cache transparency of any machine whose compared keys cover the relevant arguments and are
    all stored: for every history of earlier conversions and every call *)
@@ -158,30 +143,24 @@ Theorem C15_noalias_poly : forall hist st objs, c15_objs_inv st objs ->
 Proof. exact c15_noalias_poly. Qed.
 Print Assumptions C15_noalias_poly.
 
-(* GeoDataFrame: refuted for the method as written (column written into the cached frame), proved
-   for the repaired method (column written into a copy) *)
-Theorem C15_noalias_gdf_refuted : exists hist,
+(* GeoDataFrame: UxDataArray.to_geodataframe works on a copy of the frame it received (writes /
+   copies flags regenerated from the source) *)
+Theorem C15_noalias_gdf : forall hist st objs, c15_objs_inv st objs ->
+  forall i c, c15_obj_get i objs = Some c ->
+  c15_obj_get i (snd (c15_steps c15_sp_gdf c15_da_gdf_writes_column c15_da_gdf_copies (st, objs) hist)) = Some c.
+Proof. exact c15_noalias_gdf. Qed.
+Print Assumptions C15_noalias_gdf.
+
+(* what the copy is for: writing the column into the received (cached) frame alters earlier results *)
+Theorem C15_noalias_without_copy_refuted : exists hist,
   let '(st1, objs1, id) := c15_step c15_sp_gdf true false (c15_init, []) (None, c15_mk 1 0 true) in
   c15_obj_get id (snd (c15_steps c15_sp_gdf true false (st1, objs1) hist)) <> c15_obj_get id objs1.
-Proof. exact c15_noalias_gdf_refuted. Qed.
-Print Assumptions C15_noalias_gdf_refuted.
+Proof. exact c15_noalias_nocopy_refuted. Qed.
+Print Assumptions C15_noalias_without_copy_refuted.
 
-Theorem C15_noalias_gdf_fixed : forall hist st objs, c15_objs_inv st objs ->
-  forall i c, c15_obj_get i objs = Some c ->
-  c15_obj_get i (snd (c15_steps c15_sp_gdf true true (st, objs) hist)) = Some c.
-Proof. exact c15_noalias_gdf_fixed. Qed.
-Print Assumptions C15_noalias_gdf_fixed.
-
-Theorem C15_gdf_columns_refuted :
-  let '(s1, o1, id1) := c15_step c15_sp_gdf true false (c15_init, []) (Some 5, c15_mk 1 0 true) in
-  let '(s2, o2, id2) := c15_step c15_sp_gdf true false (s1, o1) (Some 6, c15_mk 1 0 true) in
-  let '(s3, o3, id3) := c15_step c15_sp_gdf true false (c15_init, []) (Some 6, c15_mk 1 0 true) in
-  c15_obj_get id2 o2 <> c15_obj_get id3 o3.
-Proof. exact c15_gdf_columns_refuted. Qed.
-Print Assumptions C15_gdf_columns_refuted.
-
-Theorem C15_gdf_columns_fixed : forall st objs var a,
-  let '(st', objs', id) := c15_step c15_sp_gdf true true (st, objs) (Some var, a) in
+(* the frame returned for a variable carries that variable's column only, after any history *)
+Theorem C15_gdf_columns : forall st objs var a,
+  let '(st', objs', id) := c15_step c15_sp_gdf c15_da_gdf_writes_column c15_da_gdf_copies (st, objs) (Some var, a) in
   exists built, c15_obj_get id objs' = Some (built, [var]).
-Proof. exact c15_gdf_columns_fixed. Qed.
-Print Assumptions C15_gdf_columns_fixed.
+Proof. exact c15_gdf_columns. Qed.
+Print Assumptions C15_gdf_columns.
